@@ -80,7 +80,8 @@ class Waiting(process_states.Waiting):
         awaiting: Optional[Dict[Union[asyncio.Future, processes.Process], str]] = None,
     ) -> None:
         super().__init__(process, done_callback, msg, awaiting)
-        self._awaiting: Dict[asyncio.Future, str] = {}
+        # (the value is the key, or the tuple of keys, under which the result goes into the context)
+        self._awaiting: Dict[asyncio.Future, Union[str, Tuple[str, ...]]] = {}
         for awaitable, key in (awaiting or {}).items():
             resolved_awaitable = awaitable.future() if isinstance(awaitable, processes.Process) else awaitable
             self._awaiting[resolved_awaitable] = key
@@ -111,7 +112,9 @@ class Waiting(process_states.Waiting):
     def _awaitable_done(self, awaitable: asyncio.Future) -> None:
         key = self._awaiting.pop(awaitable)
         try:
-            self.process.ctx[key] = awaitable.result()  # type: ignore
+            result = awaitable.result()
+            for name in (key,) if isinstance(key, str) else key:
+                self.process.ctx[name] = result  # type: ignore
         except (Exception, asyncio.CancelledError) as exception:
             if isinstance(exception, asyncio.CancelledError):
                 # The awaitable was cancelled, e.g. a child process that was killed by cancelling its future. This counts
@@ -191,7 +194,12 @@ class WorkChain(mixins.ContextMixin, processes.Process):
         for key, awaitable in kwargs.items():
             resolved_awaitable = awaitable.future() if isinstance(awaitable, processes.Process) else awaitable
 
-            self._awaitables[resolved_awaitable] = key
+            if resolved_awaitable in self._awaitables:
+                # The same awaitable under another key as well: its result goes to all of them
+                earlier = self._awaitables[resolved_awaitable]
+                self._awaitables[resolved_awaitable] = (*((earlier,) if isinstance(earlier, str) else earlier), key)
+            else:
+                self._awaitables[resolved_awaitable] = key
 
     async def run(self) -> Any:
         return self._do_step()
